@@ -37,6 +37,10 @@ TABLE = [
     ("<jxl_frame::Frame as jxl_oxide_common::Bundle<jxl_frame::FrameContext<'_>>>::parse", "actual_dim_shift > (7+header.group_size_shift)", 1, "dim shift vs group size (zero-sized groups)", []),
     ("<jxl_image::ImageHeader as jxl_oxide_common::Bundle<Ctx>>::parse", "len(metadata.ec_info) > 256", 1, "extra channel count", []),
     ("<jxl_image::BitDepth as jxl_oxide_common::Bundle<Ctx>>::parse", "bits_per_sample > 31", 1, "bit depth used as shift amount", []),
+    ("<jxl_image::color::TransferFunction as jxl_oxide_common::Bundle<Ctx>>::parse", "gamma > 10000000", 1,
+     "gamma above 1 (the inverse is used as an exponent and as an ICC s15Fixed16 value)", []),
+    ("<jxl_image::color::TransferFunction as jxl_oxide_common::Bundle<Ctx>>::parse", "(gamma*8192) < 10000000", 1,
+     "gamma of zero / tiny gamma: ICC synthesis divides by it (D18)", []),
     ("jxl_coding::permutation::read_permutation", "end > (size-skip)", 1, "permutation length", []),
     ("jxl_coding::permutation::read_permutation", "val >= ((size-skip)-idx)", 1, "Lehmer code bound (Vec::remove index)", []),
     ("jxl_coding::DecoderInner::parse::{closure#1}", "count > 32768", 1, "prefix alphabet size 2^15", []),
